@@ -497,10 +497,10 @@ def gen_ctor(rng):
             if len(ids) >= 2:
                 i, j = rng.sample(range(len(ids)), 2)
                 ids[j] = ids[i]
-            else:
+            elif ids:
                 ids.append(ids[0])
         elif m == 'few':
-            if len(ids) > 1 or rng.random() < 0.3:
+            if len(ids) > 1 or (ids and rng.random() < 0.3):
                 ids.pop(rng.randrange(len(ids)))
             else:
                 m = 'none'
